@@ -426,6 +426,12 @@ func (q *queue) persistMetaOfMessage(dataPageIndex int64, dataLen, messageOffset
 func (q *queue) initSequence() {
 	q.appendedSeq.Store(int64(q.metaPage.ReadUint64(queueAppendedSeqOffset)))
 	q.acknowledgedSeq.Store(int64(q.metaPage.ReadUint64(queueAcknowledgedSeqOffset)))
+	// NOTE: meta page of new queue is created with zero(acknowledged=0) before it is initialized as -1/-1,
+	// acknowledged sequence cannot be ahead of appended sequence, else message at acknowledged sequence cannot be consumed.
+	if q.acknowledgedSeq.Load() > q.appendedSeq.Load() {
+		q.acknowledgedSeq.Store(q.appendedSeq.Load())
+		q.metaPage.PutUint64(uint64(q.acknowledgedSeq.Load()), queueAcknowledgedSeqOffset)
+	}
 }
 
 // initDataPageIndex finds out data page head index and message offset
